@@ -42,7 +42,8 @@ def run():
     # 2c. the symbolic instance has teeth too: Apalache refutes the two deliberately wrong limiters of Apa_Limiters.tla
     # (an inconclusive run -- tool missing, timeout -- is reported and tolerated: the symbolic instance is an addition to TLC)
     for module, inv in (("Apa_Limiters", "InvBad"), ("Apa_Limiters", "InvBad2"), ("Apa_Scalar", "InvBadCfl"), ("Apa_Scalar", "InvBadRegion"),
-                        ("Apa_Fluxes", "InvBadHll"), ("Apa_Fluxes", "InvBadBurgers"), ("Apa_Implicit", "InvBadExplicit")):
+                        ("Apa_Fluxes", "InvBadHll"), ("Apa_Fluxes", "InvBadBurgers"), ("Apa_Implicit", "InvBadExplicit"),
+                        ("Apa_Vars", "InvBadEnthalpy2D")):
         v, _w = core.apalache(module, inv, timeout=300)
         say(v != "NoError", "Apalache: %s of %s is %s" % (inv, module, "refuted" if v == "Error" else v))
     # 3. binding: corrupted event traces recorded from the real code are rejected by Trace_Driver
